@@ -19,7 +19,12 @@ TRUSTED = [
     "AccessoryDriver.get_characteristics / set_characteristics resolution), tied by this differential run",
     "objects are modelled as opaque identities allocated fresh; sharing one characteristic object between "
     "services, adding the same service twice, or adding characteristics to a service after add_service is "
-    "documented misuse and out of scope; custom IIDManager subclasses are out of scope",
+    "documented misuse and out of scope",
+    "application IIDManager subclasses (get_iid_for_obj overridden: services known by unique_id keep a recorded iid, "
+    "the rest is numbered automatically; recorded iids distinct, at or below the counter the application starts at, or "
+    "far above it) are a configuration dimension of 25% of the random histories and two boundary histories: judged by "
+    "the oracle on the real code; the database model has stock managers only, the manager-level model with explicit "
+    "iids (Iid.assignAt, theorem C17_custom_manager) is tied by the manager-script stream",
     "histories interleave construction with observations (polls: GET /accessories, one multi-id GET /characteristics "
     "re-polling every earlier path, a few PUTs); removal = IIDManager.remove_obj/remove_iid and bridge.accessories.pop, "
     "re-adding = IIDManager.assign of a removed object (the object stays in its service; detaching a Service object from "
@@ -47,10 +52,13 @@ def extract(ctx: Ctx):
 class Run:
     """Executes a construction history on the real code, judging it with the property oracle."""
 
-    def __init__(self, ctx: Optional[Ctx], bridge: bool, main: List[dict], main_aid: Optional[int], main_early=None):
+    def __init__(self, ctx: Optional[Ctx], bridge: bool, main: List[dict], main_aid: Optional[int], main_early=None,
+                 main_manager: Optional[dict] = None):
         self.ctx = ctx
         self.h = {"bridge": bridge, "mainAid": main_aid, "main": main, "mainEarly": list(main_early or []), "ops": []}
-        self.rig = dbrig.Rig(bridge, main, main_aid, main_early)
+        if main_manager is not None:
+            self.h["mainManager"] = main_manager
+        self.rig = dbrig.Rig(bridge, main, main_aid, main_early, main_manager)
         #: characteristics that have already published an event (construction-time or mid-history)
         self.hot: List[Any] = list(self.rig.early_objs)
         self.results: List[dict] = []
@@ -121,7 +129,7 @@ class Run:
             if not rig.is_bridge:
                 return {"err": "badTarget"}
             bridge = rig.top
-            acc = rig.new_accessory(op["aid"], op["specs"], op.get("catBridge", False))
+            acc = rig.new_accessory(op["aid"], op["specs"], op.get("catBridge", False), op.get("manager"))
             # value changes while the accessory is set up, before the bridge knows it (and gives it an aid)
             early = dbrig.early_changes(acc, op.get("early") or [])
             before = list(bridge.accessories.items())
@@ -756,9 +764,9 @@ class ConstructionRaised(Exception):
     """pyhap raised while the top-level accessory was being built from shipped services."""
 
 
-def new_run(ctx, bridge, main, main_aid, main_early=None) -> "Run":
+def new_run(ctx, bridge, main, main_aid, main_early=None, main_manager=None) -> "Run":
     try:
-        return Run(ctx, bridge, main, main_aid, main_early)
+        return Run(ctx, bridge, main, main_aid, main_early, main_manager)
     except Exception as ex:  # noqa: BLE001
         if not dbrig.from_pyhap(ex):
             raise
@@ -766,7 +774,7 @@ def new_run(ctx, bridge, main, main_aid, main_early=None) -> "Run":
 
 
 def replay_history(h: dict, ctx: Optional[Ctx] = None):
-    run = new_run(ctx, h["bridge"], h["main"], h.get("mainAid", 1), h.get("mainEarly"))
+    run = new_run(ctx, h["bridge"], h["main"], h.get("mainAid", 1), h.get("mainEarly"), h.get("mainManager"))
     try:
         if h.get("probes") is not None:
             run.h["probes"] = h["probes"]
@@ -880,9 +888,37 @@ def boundary_histories(pool) -> List[dict]:
         }
     )
     hs.append({"bridge": False, "mainAid": None, "main": [lb], "ops": [poll(), {"op": "removeIid", "aid": 1, "iid": 9}, {"op": "assign", "aid": 1, "obj": 8}, poll()]})
+    # application IIDManager subclasses (get_iid_for_obj overridden): recorded iids below the counter the
+    # application starts at, equal to it, and far above; mixed with automatic ones; removal and re-assignment
+    mgr = {"start": 30, "recorded": {"lamp": 20, "fan": 30, "far": 5003}}
+    lamp = {"svc": "Lightbulb", "opt": ["Brightness"], "uid": "lamp"}
+    fan = {"svc": "Fan", "opt": [], "uid": "fan"}
+    far = {"svc": "Outlet", "opt": [], "uid": "far"}
+    temp = {"svc": "TemperatureSensor", "opt": []}
+    hs.append({"bridge": False, "mainAid": 1, "mainManager": mgr, "main": [lamp, fan, temp, sw],
+               "ops": [poll(), {"op": "addService", "aid": 1, "spec": far}, {"op": "addService", "aid": 1, "spec": lb}, poll()]})
+    hs.append({"bridge": True, "mainManager": {"start": 12, "recorded": {"lamp": 12}}, "main": [lamp],
+               "ops": [{**auto([dict(fan), dict(temp)]), "manager": mgr}, {**auto([dict(lamp), dict(far), dict(sw)]), "manager": mgr}, poll(),
+                       {"op": "addService", "aid": 2, "spec": dict(lamp)}, {"op": "addService", "aid": 3, "spec": dict(temp)},
+                       {"op": "removeObj", "aid": 1, "obj": 9}, {"op": "assign", "aid": 1, "obj": 9}, poll(),
+                       {"op": "addService", "aid": 1, "spec": dict(sw)}, poll()]})
     for h in hs:
         h.setdefault("mainAid", 1)
     return hs
+
+
+def gen_manager(rng) -> dict:
+    """A well-behaved application policy for a custom IIDManager: distinct recorded iids, the low ones at
+    or below the value the application starts the automatic counter at (so automatic iids, all above it,
+    never meet them), the high ones far beyond anything a history reaches."""
+    lows = rng.sample(range(2, 40), rng.choice([1, 2, 3]))
+    highs = [5000 + k for k in rng.sample(range(50), rng.choice([0, 1, 2]))]
+    start = max(lows) + rng.choice([0, 0, 1, 6])
+    return {"start": start, "recorded": {f"u{i}": v for i, v in enumerate(lows + highs)}}
+
+
+def uses_custom(h: dict) -> bool:
+    return h.get("mainManager") is not None or any(o.get("manager") is not None for o in h["ops"])
 
 
 def random_history(ctx: Ctx, pool, big: bool = False):
@@ -892,7 +928,23 @@ def random_history(ctx: Ctx, pool, big: bool = False):
     main = [dbrig.random_spec(rng, pool) for _ in range(rng.choice([0, 0, 1, 2]))]
     main_aid = 1 if bridge else rng.choice([1, None])
     main_early = [rng.randrange(1000) for _ in range(rng.choice([1, 2]))] if rng.random() < 0.2 else []
-    run = new_run(ctx, bridge, main, main_aid, main_early)
+    custom = rng.random() < 0.25  # application IIDManager subclasses (explicit + automatic iids mixed)
+    uids: Dict[Any, List[str]] = {}  # accessory key -> unique_ids its manager still has a recorded iid for
+    main_manager = None
+
+    def tag(specs, free):
+        for sp in specs:
+            if free and "svc" in sp and rng.random() < 0.7:
+                sp["uid"] = free.pop(rng.randrange(len(free)))
+        return specs
+
+    if custom and rng.random() < 0.7:
+        main_manager = gen_manager(rng)
+        uids[1] = list(main_manager["recorded"])
+        if not main:
+            main = [dbrig.random_spec(rng, pool)]
+        tag(main, uids[1])
+    run = new_run(ctx, bridge, main, main_aid, main_early, main_manager)
     rig = run.rig
 
     def any_spec():
@@ -936,6 +988,12 @@ def random_history(ctx: Ctx, pool, big: bool = False):
                 aid = rng.choice(keys + [1, 7])
             specs = [any_spec() for _ in range(rng.choice([0, 0, 1, 1, 2]))]
             op = {"op": "addAccessory", "aid": aid, "specs": specs}
+            if custom and rng.random() < 0.6:
+                op["manager"] = gen_manager(rng)
+                op["_free"] = list(op["manager"]["recorded"])
+                if not specs:
+                    specs.append(dbrig.random_spec(rng, pool))
+                tag(specs, op["_free"])
             if rng.random() < 0.3:
                 # value changes while the accessory is being set up, before the bridge gives it an aid
                 op["early"] = [rng.randrange(1000) for _ in range(rng.choice([1, 2, 3]))]
@@ -949,7 +1007,8 @@ def random_history(ctx: Ctx, pool, big: bool = False):
                             "specs": [any_spec() for _ in range(rng.choice([1, 1, 2]))]},
                            {"op": "poll", "pick": [rng.randrange(1000) for _ in range(2)]}]
         elif x < 0.5:
-            op = {"op": "addService", "aid": rng.choice(keys), "spec": any_spec()}
+            key = rng.choice(keys)
+            op = {"op": "addService", "aid": key, "spec": tag([any_spec()], uids.get(key, []))[0]}
         else:
             key = rng.choice(keys)
             acc = rig.accessory(key)
@@ -965,12 +1024,114 @@ def random_history(ctx: Ctx, pool, big: bool = False):
                 op = {"op": "assign", "aid": key, "obj": rng.choice(mine)}
             else:
                 op = {"op": "assign", "aid": key, "obj": rng.choice(own)}
+        free = op.pop("_free", None)
         r = run.apply(op)
+        if free is not None and r.get("ok") is not None:
+            uids[r["ok"]] = free
+        if op["op"] == "removeAccessory":
+            uids.pop(op["aid"], None)
         if op["op"] == "removeObj" and r.get("ok") is not None:
             removed.append((op["aid"], op["obj"]))
         if op["op"] == "removeIid" and r.get("ok") is not None:
             removed.append((op["aid"], r["ok"]))
     return run
+
+
+# --------------------------------------------------------------------------- manager scripts (custom managers)
+
+
+class _Thing:
+    """Stands in for a Service / Characteristic in a manager script (hashable, has the two attributes
+    the manager looks at)."""
+
+    __slots__ = ("unique_id", "type_id", "n")
+
+    def __init__(self, n, uid):
+        self.n, self.unique_id, self.type_id = n, uid, f"thing-{n}"
+
+
+def gen_manager_script(rng) -> dict:
+    """Operations on ONE application manager (get_iid_for_obj overridden).  `policy`: the application is
+    well-behaved (recorded iids distinct, at or below the counter it starts at or far above, one object
+    per unique_id) -- then the property's demand applies; otherwise the script is arbitrary (recorded iids
+    may collide with each other and with automatic ones) and only ties the model to the code."""
+    policy = rng.random() < 0.6
+    n = rng.randrange(3, 9)
+    if policy:
+        spec = gen_manager(rng)
+        uids = list(spec["recorded"])
+        rng.shuffle(uids)
+        owner = [uids.pop() if uids and rng.random() < 0.5 else None for _ in range(n)]
+    else:
+        start = rng.randrange(0, 8)
+        spec = {"start": start, "recorded": {f"u{i}": rng.randrange(1, start + 6) for i in range(rng.choice([1, 2, 3]))}}
+        owner = [rng.choice(list(spec["recorded"]) + [None, None]) for _ in range(n)]
+    ops = []
+    for _ in range(rng.randrange(4, 16)):
+        x = rng.random()
+        if x < 0.55:
+            ops.append(["assign", rng.randrange(n)])
+        elif x < 0.8:
+            ops.append(["removeObj", rng.randrange(n)])
+        else:
+            ops.append(["removeIid", rng.choice(list(spec["recorded"].values()) + [spec["start"] + k for k in range(1, 6)])])
+    return {"policy": policy, "start": spec["start"], "recorded": spec["recorded"], "owner": owner, "ops": ops}
+
+
+def run_manager_script(sc: dict):
+    """Run the script on a real `IIDManager` subclass; returns (model line, observation, failures)."""
+    mgr = dbrig.custom_manager({"start": sc["start"], "recorded": sc["recorded"]})
+    things = [_Thing(k, uid) for k, uid in enumerate(sc["owner"])]
+    num = {id(t): t.n for t in things}
+    mops, fails = [], []
+    ever: Dict[int, Any] = {}
+    raised = None
+    for op in sc["ops"]:
+        try:
+            if op[0] == "assign":
+                t = things[op[1]]
+                exp = sc["recorded"].get(t.unique_id)
+                mops.append({"op": "explicit", "obj": t.n, "iid": exp} if exp is not None else {"op": "auto", "obj": t.n})
+                mgr.assign(t)
+            elif op[0] == "removeObj":
+                mops.append({"op": "removeObj", "obj": op[1]})
+                mgr.remove_obj(things[op[1]])
+            else:
+                mops.append({"op": "removeIid", "iid": op[1]})
+                mgr.remove_iid(op[1])
+        except Exception as ex:  # noqa: BLE001 - an exception out of pyhap is the script's outcome
+            if not dbrig.from_pyhap(ex):
+                raise
+            raised = type(ex).__name__
+            break
+        if sc["policy"]:
+            held = list(mgr.iids.values())
+            dup = sorted({i for i in held if held.count(i) > 1})
+            if dup:
+                fails.append(("C17:custom-manager-duplicate-iid",
+                              f"application manager (counter started at {sc['start']}, recorded {sc['recorded']}): after {op} the iid(s) {dup} "
+                              f"are held by two objects each"))
+                break
+            for t2, i in mgr.iids.items():
+                first = ever.setdefault(i, t2)
+                if first is not t2:
+                    fails.append(("C17:custom-manager-iid-reissued",
+                                  f"application manager (counter started at {sc['start']}, recorded {sc['recorded']}): after {op} iid {i}, "
+                                  f"once object #{num[id(first)]}'s, is handed to object #{num[id(t2)]}"))
+                    break
+            if any(mgr.objs.get(i) is not t2 for t2, i in mgr.iids.items()):
+                fails.append(("C17:custom-manager-maps-inconsistent",
+                              f"application manager: after {op} get_obj(get_iid(x)) is not x for some assigned object"))
+            if fails:
+                break
+    if raised:
+        obs = {"err": raised}
+    else:
+        obs = {"counter": mgr.counter, "iids": sorted([num[id(t)], i] for t, i in mgr.iids.items()),
+               "objs": sorted([i, num[id(t)]] for i, t in mgr.objs.items())}
+    mx = max([sc["start"] + len(sc["ops"]) + 2] + list(sc["recorded"].values()))
+    line = {"layer": "db", "op": "c17m", "start": sc["start"], "objects": len(things), "maxIid": mx, "ops": mops}
+    return line, obs, fails
 
 
 def line_of(h: dict, model_subs=None, model_ops=None) -> dict:
@@ -1033,8 +1194,10 @@ def run(ctx: Ctx):
         "and a subscription scenario (one PUT subscribing several pairs, single-pair (un)subscribes by other connections, value "
         "changes on every pair: an event reaches exactly the connections that themselves subscribed to that pair). Services are "
         "shipped ones or hand-assembled with a type repeated inside one add_characteristic call / in a later call. "
-        "Non-trivial: the history contains a removal/re-assignment, a rejected operation, or an automatic aid beyond 7; "
-        "distinct by the op list."
+        "25% of the histories give accessories an application IIDManager subclass (recorded + automatic iids). A second stream "
+        "runs manager scripts (assign / remove_obj / remove_iid on one application manager, well-behaved or arbitrary) against "
+        "the manager-level model. Non-trivial: the history contains a removal/re-assignment, a rejected operation, or an "
+        "automatic aid beyond 7; distinct by the op list."
     )
     pool = dbrig.spec_pool(Loader())
     runs: List[Run] = []
@@ -1074,6 +1237,11 @@ def run(ctx: Ctx):
                 continue
             st.hit("outcome", op["op"] + ":" + ("err-" + res["err"] if "err" in res else "ok"))
         st.hit("outcome", "listed-pairs", sum(1 for e in o.get("resolve", []) if "read" in e))
+        if uses_custom(r.h):
+            # application IIDManager subclasses: judged by the oracle on the real code; the database model has
+            # stock managers only (the manager-level model with explicit iids is tied by the c17m stream)
+            st.hit("outcome", "custom-manager-history")
+            continue
         if "fatal" in m:
             ctx.disagree("c17-history", r.h, m, "(model driver error)")
             continue
@@ -1081,6 +1249,20 @@ def run(ctx: Ctx):
         if mv != o:
             key = next((k for k in ("results", "accessories", "managers", "resolve", "probes", "subs") if mv.get(k) != o.get(k)), "?")
             ctx.disagree("c17-history:" + key, r.h, _short(mv.get(key)), _short(o.get(key)))
+    # manager scripts: the model with explicit iids (Iid.assignAt) against a real IIDManager subclass
+    scripts = [gen_manager_script(ctx.rng) for _ in range(ctx.n(150, 2500))]
+    ran = [run_manager_script(sc) for sc in scripts]
+    mmodel = run_model_parallel("C17", [line for line, _, _ in ran])
+    for sc, (line, ob, fails), mm in zip(scripts, ran, mmodel):
+        st.traces_validated += 1
+        st.case(["manager-script", sc], any(o[0] != "assign" for o in sc["ops"]))
+        st.hit("outcome", "manager-script:" + ("policy" if sc["policy"] else "arbitrary") + (":KeyError" if "err" in ob else ""))
+        for sig, desc in fails:
+            if not any(f.signature == sig for f in ctx.failures):
+                ctx.fail(sig, desc, {"kind": "manager-script", "script": sc})
+        got = {"err": mm["err"]} if "err" in mm else {k: sorted(mm.get(k) or []) if k != "counter" else mm.get(k) for k in ("counter", "iids", "objs")}
+        if "fatal" in mm or got != ob:
+            ctx.disagree("c17-manager-script", sc, _short(mm), _short(ob))
     for i in sorted({0, min(5, len(runs) - 1), len(runs) - 1} if runs else set()):
         r, o = runs[i], obs[i]
         st.sample(
@@ -1089,7 +1271,7 @@ def run(ctx: Ctx):
                 "results": r.results[:12],
                 "aids_listed": [a["aid"] for a in (o.get("accessories") or [])],
                 "listed_pairs_probed": sum(1 for e in o.get("resolve", []) if "read" in e),
-                "model_agrees": "fatal" not in model[i] and model_view(model[i], r.char_numbers(), None) == o,
+                "model_agrees": uses_custom(r.h) or ("fatal" not in model[i] and model_view(model[i], r.char_numbers(), None) == o),
             }
         )
 
@@ -1104,6 +1286,11 @@ def search(ctx: Ctx):
     from pyhap.loader import Loader
 
     pool = dbrig.spec_pool(Loader())
+    for _ in range(2000):
+        sc = gen_manager_script(ctx.rng)
+        for sig, desc in run_manager_script(sc)[2]:
+            if not any(f.signature == sig for f in ctx.failures):
+                ctx.fail(sig, desc, {"kind": "manager-script", "script": sc})
     for i in range(1200):
         try:
             r = random_history(ctx, pool, big=i % 3 == 0)
@@ -1119,6 +1306,14 @@ def search(ctx: Ctx):
 
 
 def replay(ctx: Ctx, r):
+    if r.get("kind") == "manager-script":
+        _, ob, fails = run_manager_script(r["script"])
+        print("manager script:", json.dumps(r["script"])[:600])
+        print("final state:", json.dumps(ob)[:400])
+        for sig, desc in fails:
+            print("FAILS:", sig, desc)
+        print("verdict:", "property violated on this input" if fails else "holds on this input")
+        return 1 if fails else 0
     h = r["h"]
     run_, obs = replay_history(h, ctx)
     print("history:", json.dumps(h)[:600])
